@@ -80,6 +80,19 @@ def run(rep, tier, seed, replay):
                        "oracle": "each request performs its step once, in order, acknowledged by the matching reply; unknown -> unknown reply; malformed -> nothing; a dropped child does not block the next",
                        "case": {"line": cases[i]}, "impl": impl[i], "expected": model[i], "disagreeing_cases": len(mm)})
 
+    # the drain step itself: the listening socket is closed, the connections Accept has returned are kept
+    drain_lines = ["tcp drain-after-accept", "tcp drain-then-stop 2", "redis drain-then-stop 2", "tcp drain-during-bind",
+                   "tcp drain-while-binding", "redis drain-while-binding"]
+    if not rcase or rcase.get("mode") == "c09":
+        res = differential(rep, PROP, "c09", seed, 0, tier, replay_cases=(rc("c09") if rcase else drain_lines) * (1 if quick or rcase else 5))
+        cases, impl, model = res["cases"], res["impl"], res["models"]["c09"]
+        mm = vlib.diff_lines(impl, model)
+        add_corr(rep, "the drain step on real listeners (Drain before, during and after the bind, and between Accept's return and the loop's next step): implementation vs the listener model", res, mm, len(set(cases)))
+        if mm:
+            found = True
+            i = mm[0]
+            rep.violation({"kind": "history", "mode": "c09", "oracle": "drain step: observed '%s', expected '%s'" % (impl[i][:200], model[i][:200]),
+                           "case": {"line": cases[i], "format": "<redis|tcp> <scenario> [params] (harness c09 -in <file>)"}, "impl": impl[i], "model": model[i], "failing_cases": len(mm)})
     if not pr["ok"] and not found:
         rep.violation({"kind": "broken-tie", "theorem": pr.get("broken"), "detail": pr.get("tail"),
                        "searched": "frame oracle on every generated input and dispatcher histories: no failing input"}, found_input=False)
